@@ -38,16 +38,32 @@ def main(replay=None):
     bdir, hb = ck.prepare(pf, "h_c02.cpp")
     hc.clean_axiom_accounting(ck)
     if hb is None: return ck.finish()
+    try:
+        _run(ck, hb, quick, replay)
+    except Exception as e:      # a check never dies: whatever went wrong inside is reported, with the traceback as replay
+        import traceback
+        ck.violation("check-internal", "the check itself failed (%r): treated as a broken tie, not as a verdict on the property" % (e,),
+                     dict(kind="internal", traceback=traceback.format_exc()[-4000:]), found_input=False)
+    return ck.finish()
+
+def _run(ck, hb, quick, replay):
     stats = {}
     if replay:
         hc.replay_any(ck, hb, json.load(open(replay)), "moved")
-        return ck.finish()
+        return
     # 1. fixed witnesses: gains of a model with singular head matrix are frame dependent (known findings, root cause C10)
     for label, tag in WITNESSES:
         c = witness_case(tag)
         lines = ["gains " + hc.write_case(c, os.path.join(ck.workdir, "w_ref")),
                  "gains " + hc.write_case(hc.transform_case(c, Q1, (3.0, -2.0, 1.0)), os.path.join(ck.workdir, "w_mov"))]
         r0, r1 = hc.run_lines(hb, ck.workdir, lines, tag="witness")
+        ab = [a for a in (hc.abnormal(r0), hc.abnormal(r1)) if a]
+        if ab:
+            # not the known finding: the witness could not even be computed in one of the frames
+            stats.setdefault("witnesses", []).append(dict(label=label, abnormal=ab))
+            ck.violation("witness run abnormal: " + label, "the witness model could not be computed: original frame: %s; moved frame: %s" % (hc.abnormal(r0) or "ok", hc.abnormal(r1) or "ok"),
+                         dict(kind="pair", label=label, case=hc.case_to_json(c), transform=hc.tr_dict(Q1, (3.0, -2.0, 1.0), 1.0, 1.0), tol=1e-9, what=""))
+            continue
         fails, levels = hc.compare_gains(r0, r1, c)
         cd = hc.cond_of(r0)
         stats.setdefault("witnesses", []).append(dict(label=label, cond=cd, levels=levels))
@@ -63,8 +79,14 @@ def main(replay=None):
         mv = hc.transform_case(c, tr["R"], tuple(tr["t"]), tr["s"], tr["k"])
         r0, r1 = hc.run_lines(hb, ck.workdir, ["gains %s dec,eit" % hc.write_case(c, os.path.join(ck.workdir, "w_ref")),
                                               "gains %s dec,eit" % hc.write_case(mv, os.path.join(ck.workdir, "w_mov"))], tag="witness")
-        fails, levels = hc.compare_gains(r0, r1, c); dec = hc.compare_decisions(r0, r1)
-        stats.setdefault("witnesses", []).append(dict(label=EIT_TIE, levels=levels, decisions=[d[2] for d in dec]))
+        ab = [a for a in (hc.abnormal(r0), hc.abnormal(r1)) if a]
+        fails, levels, dec = [], {}, []
+        if ab:
+            stats.setdefault("witnesses", []).append(dict(label=EIT_TIE, abnormal=ab))
+            ck.violation("witness run abnormal: " + EIT_TIE, "the witness model could not be computed: original frame: %s; moved frame: %s" % (hc.abnormal(r0) or "ok", hc.abnormal(r1) or "ok"), rp)
+        else:
+            fails, levels = hc.compare_gains(r0, r1, c); dec = hc.compare_decisions(r0, r1)
+            stats.setdefault("witnesses", []).append(dict(label=EIT_TIE, levels=levels, decisions=[d[2] for d in dec]))
         if fails:
             ck.violation(EIT_TIE, "EIT gains differ between the two frames (GainEIT %.2e, GainEITInternalPot %.2e relative Frobenius): %s" %
                          (levels.get("GainEIT", 0), levels.get("GainEITInternalPot", 0), "; ".join(d[2] for d in dec) or "no decision difference seen"), rp)
@@ -102,4 +124,3 @@ def main(replay=None):
                                "Python generators lib/models.py, lib/headcases.py (models written at 17 significant digits)"]
     ck.assumptions += ["rounding is measured, not proved: tolerance 1e-9 relative Frobenius on gains (measured level reported in coverage.measured_rounding_level)",
                        "models whose head matrix is numerically singular (eigenvalue ratio > 1e12) are compared operator by operator instead of by gains"]
-    return ck.finish()
